@@ -1,14 +1,204 @@
 //! Steps that cross a process boundary: the simulated files are exported to a real scratch
-//! directory and a freshly spawned `abysim xproc ...` opens them through the real kernel.
+//! directory and a freshly spawned `abysim xproc ...` opens them through the REAL kernel.
 
-use crate::kernel::Img;
+use crate::golden::{load_images, save_images, write_real_file};
+use crate::handles;
+use crate::kernel::{self, Img};
 use crate::ops::*;
 use crate::runner::*;
+use serde_json::{json, Value};
+use std::process::{Command, Stdio};
 
-pub fn audit_closed_images(_w: &mut World) -> StepResult {
+fn tmp_base() -> String {
+    std::env::var("ABYSIM_TMP").unwrap_or_else(|_| "/tmp".to_string())
+}
+
+fn fnv(b: &[u8]) -> u64 {
+    let mut h = 0xcbf2_9ce4_8422_2325u64;
+    for x in b {
+        h = (h ^ *x as u64).wrapping_mul(0x100_0000_01b3);
+    }
+    h
+}
+
+fn val_repr(v: &[u8]) -> String {
+    if v.len() <= 256 {
+        hexser::to_hex(v)
+    } else {
+        format!("#{}:{:016x}", v.len(), fnv(v))
+    }
+}
+
+/// parent side: export the closed images, let a fresh process read them through the real
+/// kernel, compare with the models
+pub fn audit_closed_images(w: &mut World) -> StepResult {
+    static COUNTER: std::sync::atomic::AtomicU64 = std::sync::atomic::AtomicU64::new(0);
+    let n = COUNTER.fetch_add(1, std::sync::atomic::Ordering::Relaxed);
+    let dir = format!("{}/abysim.xp.{}.{}", tmp_base(), std::process::id(), n);
+    let _ = std::fs::remove_dir_all(&dir);
+    if std::fs::create_dir_all(&dir).is_err() {
+        return Err(Stop::Inconclusive("xproc: cannot create scratch directory".into()));
+    }
+    let mut specs = Vec::new();
+    let mut idx = Vec::new();
+    for m in 0..w.maps.len() {
+        if !w.maps[m].created {
+            continue;
+        }
+        if let Some(imgs) = w.images(m) {
+            let name = &w.maps[m].spec.name;
+            for (i, ext) in ["htx", "key", "val"].iter().enumerate() {
+                if write_real_file(&format!("{dir}/{name}.{ext}"), &imgs[i]).is_err() {
+                    let _ = std::fs::remove_dir_all(&dir);
+                    return Err(Stop::Inconclusive("xproc: cannot export image".into()));
+                }
+            }
+            let mut s = w.maps[m].spec.clone();
+            s.params = w.maps[m].params.clone();
+            specs.push(s);
+            idx.push(m);
+        }
+    }
+    let specfile = format!("{dir}/specs.json");
+    std::fs::write(&specfile, serde_json::to_string(&specs).unwrap()).unwrap();
+    let out = Command::new(&w.env.exe).args(["xproc", "dump", &dir, &specfile]).stdin(Stdio::null()).stderr(Stdio::piped()).output();
+    let _ = std::fs::remove_dir_all(&dir);
+    let out = match out {
+        Ok(o) => o,
+        Err(e) => return Err(Stop::Inconclusive(format!("xproc: spawn failed: {e}"))),
+    };
+    let text = String::from_utf8_lossy(&out.stdout).to_string();
+    let v: Value = match text.lines().rev().find_map(|l| serde_json::from_str::<Value>(l).ok()) {
+        Some(v) => v,
+        None => {
+            let err = String::from_utf8_lossy(&out.stderr);
+            return Err(viol("reopen", "xproc:child-failed".into(), w.step_no, format!("a fresh process could not open the closed files through the real kernel: status {:?}, {}", out.status, err.lines().last().unwrap_or(""))));
+        }
+    };
+    w.stats.probe("reopen-in-fresh-process");
+    for (j, &m) in idx.iter().enumerate() {
+        let got = &v["maps"][j];
+        let model = &w.maps[m].model;
+        let len = got["len"].as_u64().unwrap_or(u64::MAX);
+        if len != model.len() as u64 {
+            return Err(viol("reopen", "xproc:len".into(), w.step_no, format!("fresh process: map '{}' len() = {len}, expected {}", w.maps[m].spec.name, model.len())));
+        }
+        let mut pairs: Vec<(String, String)> = got["pairs"].as_array().map(|a| a.iter().map(|p| (p[0].as_str().unwrap_or("").to_string(), p[1].as_str().unwrap_or("").to_string())).collect()).unwrap_or_default();
+        pairs.sort();
+        let mut want: Vec<(String, String)> = model.iter().map(|(k, (_, v))| (hexser::to_hex(k), val_repr(v))).collect();
+        want.sort();
+        if pairs != want {
+            return Err(viol("reopen", "xproc:contents".into(), w.step_no, format!("fresh process: iteration of map '{}' yields {} pairs that differ from the state at the drop ({} entries)", w.maps[m].spec.name, pairs.len(), want.len())));
+        }
+        let gets = got["gets_ok"].as_bool().unwrap_or(false);
+        if !gets {
+            return Err(viol("reopen", "xproc:get".into(), w.step_no, format!("fresh process: get() of an iterated key of map '{}' did not return its value", w.maps[m].spec.name)));
+        }
+    }
     Ok(())
 }
 
-pub fn run_b_in_child(_ep: &Episode, _env: &Env) -> Result<(Option<Stop>, Vec<Option<[Img; 3]>>, RunStats), String> {
-    Err("xproc not available".into())
+/// child side of `audit_closed_images`
+pub fn dump_main(dir: &str, specfile: &str) -> i32 {
+    let specs: Vec<MapSpec> = serde_json::from_str(&std::fs::read_to_string(specfile).expect("specs")).expect("specs json");
+    let db = abyssiniandb::open_file(dir).expect("open_file");
+    let mut maps = Vec::new();
+    for s in &specs {
+        let mut h = handles::open_map(&db, &s.name, s.kt, &s.params).expect("open map");
+        let len = h.len().expect("len");
+        let items: Vec<(Vec<u8>, Vec<u8>)> = h.iter(Flavour::Iter).map(|it| (it.key.unwrap_or_default(), it.val.unwrap_or_default())).collect();
+        let mut gets_ok = true;
+        for (k, v) in items.iter().take(50) {
+            let key = match s.kt {
+                KType::Str | KType::Bytes => Key::B(k.clone()),
+                KType::U64 => {
+                    let mut a = [0u8; 8];
+                    a[..k.len().min(8)].copy_from_slice(&k[..k.len().min(8)]);
+                    Key::U(u64::from_le_bytes(a))
+                }
+                KType::I64 => {
+                    let mut a = [0u8; 8];
+                    a[..k.len().min(8)].copy_from_slice(&k[..k.len().min(8)]);
+                    Key::I(i64::from_le_bytes(a))
+                }
+                KType::Vu64 => {
+                    let img = Img::from_bytes(k);
+                    Key::U(crate::decoder::vu64_decode(&img, 0).map(|x| x.0).unwrap_or(0))
+                }
+            };
+            if h.get(&key, KeyMode::Ref).ok().flatten().as_ref() != Some(v) {
+                gets_ok = false;
+            }
+        }
+        let pairs: Vec<Value> = items.iter().map(|(k, v)| json!([hexser::to_hex(k), val_repr(v)])).collect();
+        maps.push(json!({"len": len, "pairs": pairs, "gets_ok": gets_ok}));
+    }
+    println!("{}", json!({"maps": maps}));
+    0
+}
+
+/// parent side of the C18 cross-process run B
+pub fn run_b_in_child(ep: &Episode, env: &Env) -> Result<(Option<Stop>, Vec<Option<[Img; 3]>>, RunStats), String> {
+    static COUNTER: std::sync::atomic::AtomicU64 = std::sync::atomic::AtomicU64::new(0);
+    let n = COUNTER.fetch_add(1, std::sync::atomic::Ordering::Relaxed);
+    let base = format!("{}/abysim.rb.{}.{}", tmp_base(), std::process::id(), n);
+    let _ = std::fs::remove_dir_all(&base);
+    std::fs::create_dir_all(&base).map_err(|e| format!("xproc: {e}"))?;
+    let epfile = format!("{base}/episode.json");
+    std::fs::write(&epfile, serde_json::to_string(ep).unwrap()).map_err(|e| format!("xproc: {e}"))?;
+    let out = Command::new(&env.exe).args(["xproc", "runb", &epfile, &base]).stdin(Stdio::null()).stderr(Stdio::null()).output();
+    let res = (|| {
+        let out = out.map_err(|e| format!("xproc: spawn failed: {e}"))?;
+        let text = String::from_utf8_lossy(&out.stdout).to_string();
+        let v: Value = text.lines().rev().find_map(|l| serde_json::from_str::<Value>(l).ok()).ok_or_else(|| format!("xproc: run B child died ({:?})", out.status))?;
+        let stop = if !v["violation"].is_null() {
+            serde_json::from_value::<Violation>(v["violation"].clone()).ok().map(Stop::Violation)
+        } else if let Some(s) = v["inconclusive"].as_str() {
+            Some(Stop::Inconclusive(s.to_string()))
+        } else {
+            None
+        };
+        let nm = v["maps"].as_u64().unwrap_or(0) as usize;
+        let mut images = Vec::new();
+        for m in 0..nm {
+            let p = format!("{base}/map{m}.img");
+            images.push(load_images(&p).ok());
+        }
+        let mut stats = RunStats::default();
+        stats.api_calls = v["api_calls"].as_u64().unwrap_or(0);
+        stats.steps_done = v["steps"].as_u64().unwrap_or(0);
+        stats.probe("run-b-in-fresh-process-real-kernel");
+        Ok((stop, images, stats))
+    })();
+    let _ = std::fs::remove_dir_all(&base);
+    res
+}
+
+/// child side: execute run B of a Twice episode through the real kernel (trace mode)
+pub fn runb_main(epfile: &str, outdir: &str) -> i32 {
+    let ep: Episode = serde_json::from_str(&std::fs::read_to_string(epfile).expect("episode")).expect("episode json");
+    let root = crate::worker::scratch_root("b");
+    kernel::install(&root, kernel::Mode::Trace);
+    install_panic_hook();
+    let env = Env { root: root.clone(), verbose: false, allow_xproc: false, exe: String::new() };
+    let poison = match ep.plan {
+        Plan::Twice { poison_b, .. } => poison_b,
+        _ => 0,
+    };
+    crate::worker::arm_cpu_timer(120);
+    let r = crate::oracles::run_once(&ep, &env, "e", false, poison);
+    crate::worker::arm_cpu_timer(0);
+    for (m, im) in r.images.iter().enumerate() {
+        if let Some(i) = im {
+            let _ = save_images(&format!("{outdir}/map{m}.img"), i);
+        }
+    }
+    let (viol, inc) = match r.stop {
+        Some(Stop::Violation(v)) => (Some(v), None),
+        Some(Stop::Inconclusive(s)) => (None, Some(s)),
+        None => (None, None),
+    };
+    println!("{}", json!({"violation": viol, "inconclusive": inc, "maps": r.images.len(), "api_calls": r.stats.api_calls, "steps": r.stats.steps_done}));
+    let _ = std::fs::remove_dir_all(&root);
+    0
 }
